@@ -123,7 +123,7 @@ func cmdVerify(args []string) int {
 		byRes := map[string]int{}
 		for _, o := range res.Obls {
 			want := "unsat"
-			if o.Kind == "pre-sat" {
+			if o.Kind == "pre-sat" || o.Kind == "vacuity" {
 				want = "sat"
 			}
 			byRes[o.Result]++
